@@ -231,7 +231,7 @@ def make_cases(ctx):
     reserved = set(lib_by_name) | set(dynamic)
     cases = []
     groups = []
-    n_sets = ctx.pick(450, 9000)
+    n_sets = ctx.pick(450, 3000)
     for s in range(n_sets):
         libname = rng.random() < 0.25
         name = rng.choice(["add", "len", "to_str", "eq", "max", "mul", "get", "contains", "neg"]) if libname else rng.choice(["ov", "pick", "f", "go_", "Resolve", "item7x"])
